@@ -112,6 +112,44 @@ def d2(prop, profile, sessions, seed, all_names=False):
     return dict(tlc=t, sessions=info["sessions"], events=info["events"], violations=viol, samples=samples, profile=profile)
 
 
+def d2_repo_tests(prop):
+    """Leg D2, source (d): the repository's own tests (tests/general.rs, unmodified) run against the logging
+    facade crate (facade/, library name `snow`); every public call they make is validated by the trace spec."""
+    import glob
+    import subprocess
+    fac = os.path.join(ROOT, "facade")
+    d = os.path.join(WORK, f"{prop.lower()}-d2-repotests")
+    subprocess.run(["rm", "-rf", d])
+    os.makedirs(d, exist_ok=True)
+    env = dict(os.environ)
+    env.update(VERIF_TRACE_DIR=d, VERIF_NAMES=name_table(), CARGO_NET_OFFLINE="true")
+    p = subprocess.run(["cargo", "test", "--offline", "--test", "general"], cwd=fac, env=env, capture_output=True, text=True)
+    if "error: could not compile" in p.stderr or "error[" in p.stderr:
+        log("D2 repo-tests: the upstream tests do not compile against the facade any more - source skipped")
+        return None
+    files = sorted(glob.glob(os.path.join(d, "*.ndjson")))
+    if not files:
+        log("D2 repo-tests: no traces recorded - source skipped")
+        return None
+    nd = os.path.join(d, "all.trace")
+    with open(nd, "w") as f:
+        for fn in files:
+            f.write(open(fn).read())
+    t, line, ev = validate_trace(nd, f"{prop.lower()}-d2-repotests-tlc")
+    lines = open(nd).read().splitlines()
+    viol = []
+    if line is not None:
+        start = max(k for k in range(line) if json.loads(lines[k])["ev"] == "session")
+        os.makedirs(os.path.join(REPLAYS, prop), exist_ok=True)
+        pth = os.path.join(REPLAYS, prop, "trace-repotests-" + hashlib.sha256("\n".join(lines[start:line]).encode()).hexdigest()[:12] + ".ndjson")
+        open(pth, "w").write("\n".join(lines[start:line]) + "\n")
+        viol.append(dict(op=ev.get("ev", ""), what="trace_rejected", cause="repo-tests", expected="a behaviour of spec/SnowTrace.tla",
+                         observed=json.dumps(ev)[:300], replay=pth, name=json.loads(lines[start]).get("name", "")))
+    log(f"D2 repo-tests: {len(files)} upstream tests, {len(lines)} events, {'REJECTED at %s' % line if line else 'accepted'}")
+    return dict(tlc=t, sessions=len(files), events=len(lines), violations=viol,
+                samples=[json.loads(x) for x in lines[3:5]], profile="repo-tests(tests/general.rs through facade)")
+
+
 def add_d2(res, d2s):
     c = res["coverage"]
     c["d2_traces"] = [dict(profile=x["profile"], sessions=x["sessions"], events=x["events"]) for x in d2s]
@@ -206,7 +244,8 @@ def c07(tier, seed):
                  "every field altered, truncation at/inside every field, extension by 1/16/65535 bytes, stale message, "
                  "undersized payload buffer - then the genuine call; expected: documented error kind, unchanged "
                  "observables, and a continuation byte-identical to the failure-free transcript", ASSUME_SYMBOLIC)
-    return add_d2(res, [d2("C07", "faulty", 400 if tier == "quick" else 6000, seed)])
+    ds = [d2("C07", "faulty", 400 if tier == "quick" else 6000, seed), d2_repo_tests("C07")]
+    return add_d2(res, [x for x in ds if x])
 
 
 def c06(tier, seed):
@@ -452,7 +491,8 @@ def c09(tier, seed):
                  "ReservedUnused; the recording cipher reports any use of nonce 2^64-1 other than the REKEY input",
                  ASSUME_SYMBOLIC + ["Apalache inductive check of the counter logic for an unbounded nonce domain: see spec/NonceInd.tla (thorough tier)"])
     res["coverage"]["apalache_inductive_check"] = apalache_nonce()
-    return res
+    ds = [d2_repo_tests("C09")]
+    return add_d2(res, [x for x in ds if x])
 
 
 def c15(tier, seed):
@@ -474,7 +514,8 @@ def c15(tier, seed):
                  "the combined and the single-direction entry points)} on either side; REKEY(k) is a term evaluated from its "
                  "definition (first 32 bytes of ENCRYPT(k, 2^64-1, '', 0^32)) with independent primitives, so post-rekey "
                  "ciphertexts are compared byte for byte; in-sync pairs deliver, out-of-sync pairs reject", ASSUME_SYMBOLIC)
-    return add_d2(res, [d2("C15", "rekey", 300 if tier == "quick" else 5000, seed)])
+    ds = [d2("C15", "rekey", 300 if tier == "quick" else 5000, seed), d2_repo_tests("C15")]
+    return add_d2(res, [x for x in ds if x])
 
 
 def c16(tier, seed):
@@ -510,13 +551,15 @@ def c11(tier, seed):
     t = run_tlc("MC_StateMachine", c, invariants=["InvS"], name="c11-sm", timeout=3000, view="ViewS",
                 action_constraint="EmitEdge")
     r = replay("C11", t, seed, per, threads=14, dh="25519")
-    return merge("model_checking", [t], [r],
+    res = merge("model_checking", [t], [r],
                  "TLC explores spec/MC_StateMachine.tla exhaustively: every sequence of calls from {write valid / into an "
                  "empty buffer, read genuine / stale / garbage, convert to stateful or stateless (at ANY time), transport "
                  "write/read} on both endpoints up to the stated depth and number of failing calls, for all 38 patterns and "
                  "psk representatives (1-4 messages, one-way and interactive); every EDGE of the state graph is emitted with a "
                  "shortest path and replayed: result variant, is_my_turn, is_handshake_finished, is_initiator compared after "
                  "every call; TLC checks Indicators, OutOfPhase, ConvertOnlyFinished, OneWayS", ASSUME_SYMBOLIC)
+    ds = [d2_repo_tests("C11")]
+    return add_d2(res, [x for x in ds if x])
 
 
 def c12(tier, seed):
